@@ -129,6 +129,10 @@ class UserAddNode(ActionGroup):
             raise InvalidActionError(
                 f"Cannot add node {node} without position or segmentation"
             )
+        if pixels is not None:
+            if tracks.segmentation is None:
+                raise ValueError("Cannot set pixels when segmentation is None")
+            tracks.segmentation[pixels]  # IndexError for pixels outside the array
 
         for conflicting_edge in conflicting_edges:
             self.actions.append(
